@@ -3,12 +3,15 @@
 //! generator with single-fault mutants and meaning-preserving rearrangements (`gen`), drivers
 //! for the REAL compiler (`compile`) and the wire format shared with the Lean side (`wire`).
 //! See `README.md`.
+pub mod arrange;
 pub mod compile;
 pub mod diag_kinds;
 pub mod env;
 pub mod gen;
 pub mod model;
+pub mod mutate;
 pub mod render;
 pub mod shrink;
+pub mod wire;
 
 pub use hx_common::Rng;
